@@ -294,8 +294,11 @@ def createInstance (beh : Beh) : Nat → State → Nat → Desc → State × Exc
   | f+1, st, s, d =>
     match d.kind with
     | .inst v =>
+      -- a value registered under several interface types is one service: shared with the siblings
       let r := setInstance st s d d.ident (.inst v)
-      (r.1, okOr r.2 (.inst v))
+      match r.2 with
+      | .error e => (r.1, .error e)
+      | .ok _ => (shareAll r.1 s d.id (d.sibs.filterMap (findDesc st.descs)) (.inst v), .ok (.inst v))
     | _ =>
       let ra := buildArgs beh f st s d.deps []
       match ra.2 with
@@ -493,9 +496,14 @@ def createSingletons (beh : Beh) (st : State) : List Nat → State × Except Err
 
 def isInitializer (d : Desc) : Bool := d.life == .scoped && d.kind == .void
 
+/-- instance-valued registrations exist before Build: their values carry the ids below `firstFresh`,
+constructors hand out ids from there on (so a fresh id never coincides with a registered value) -/
+def instVal (d : Desc) : Nat := match d.kind with | .inst v => v | _ => 0
+def firstFresh (descs : List Desc) : Nat := (descs.map instVal).foldl max 0 + 1
+
 /-- phases 5 and 6 of `doBuild`; `order` = the topological order (desc ids) the graph produced -/
 def buildRuntime (beh : Beh) (descs : List Desc) (order : List Nat) : State × Except Err Unit :=
-  let st0 : State := { descs := descs }
+  let st0 : State := { descs := descs, next := firstFresh descs }
   match newScope beh st0 none 0 false with
   | (st1, .error e) => (st1, .error (.build :: e))
   | (st1, .ok _) =>
